@@ -15,19 +15,19 @@ import StubGen.Spec.TypeSpec
 import StubGen.Spec.Params
 import StubGen.Proofs.Types
 import StubGen.Proofs.Naming
--- (being re-proved after the model followed the fix: commits) import StubGen.Proofs.Params
+import StubGen.Proofs.Params
 -- (being re-proved after the model followed the fix: commits) import StubGen.Proofs.TypeText
--- (being re-proved after the model followed the fix: commits) import StubGen.Proofs.Files
+import StubGen.Proofs.Files
 -- (being re-proved after the model followed the fix: commits) import StubGen.Proofs.Markers
 import StubGen.Proofs.Doc
 import StubGen.Theorems.Tables
 -- (being re-proved after the model followed the fix: commits) import StubGen.Theorems.C05
--- (being re-proved after the model followed the fix: commits) import StubGen.Theorems.C06
--- (being re-proved after the model followed the fix: commits) import StubGen.Theorems.C07
+import StubGen.Theorems.C06
+import StubGen.Theorems.C07
 import StubGen.Theorems.C09
--- (being re-proved after the model followed the fix: commits) import StubGen.Theorems.C10
+import StubGen.Theorems.C10
 import StubGen.Theorems.C13
 import StubGen.Theorems.C15
--- (being re-proved after the model followed the fix: commits) import StubGen.Theorems.C16
+import StubGen.Theorems.C16
 import StubGen.Theorems.C19
 -- (being re-proved after the model followed the fix: commits) import StubGen.Theorems.C20
